@@ -94,11 +94,17 @@ func NewCtx(prop, tier string, seed uint64, root string, pool *drv.Pool, known [
 	return c
 }
 
-func (c *Ctx) deadline() time.Duration {
-	if c.Quick {
-		return 5 * time.Second
+// A hang is a call that never returns; the deadline only has to be finite. It is far above what
+// the slowest case needs on a loaded or memory-starved machine (the 100000-deep sources take up
+// to 2.3 s each when sixteen of them grow their stacks at once) and grows with the size of the
+// case, so that a slow sandbox is not reported as a hang; running time as such is the
+// runtime-budget oracle's business.
+func (c *Ctx) deadline(descLen int) time.Duration {
+	d := 15*time.Second + time.Duration(descLen/2)*50*time.Microsecond
+	if !c.Quick {
+		d += 45 * time.Second
 	}
-	return 20 * time.Second
+	return d
 }
 
 // watchdog: a case whose implementation call does not return within the deadline is a hang.
@@ -108,8 +114,8 @@ func (c *Ctx) watchdog() {
 		now := time.Now().UnixNano()
 		for w := range c.busy {
 			t := c.busy[w].Load()
-			if t != 0 && time.Duration(now-t) > c.deadline() {
-				desc, _ := c.cur[w].Load().(string)
+			desc, _ := c.cur[w].Load().(string)
+			if t != 0 && time.Duration(now-t) > c.deadline(len(desc)) {
 				path := c.writeReplay(map[string]interface{}{"property": c.Prop, "kind": "hang",
 					"case": desc, "note": "implementation call did not return within the per-case deadline"})
 				fmt.Printf("VIOLATION property=%s replay=%s\n", c.Prop, path)
